@@ -56,6 +56,8 @@ def h_sha256(e, st, o, name, args, kwargs):
         yield st._clone(ghost=g), NONE
     elif name == "digest":
         s1, v = det_bytes(e, st, "sha256", cur, 32, 32, fixed=32)
+        if not e.spec_mode:
+            s1 = s1.ghost_append("hashed", TupleV([cur, v]))
         yield s1, v
     else:
         raise Unsupported(f"sha256.{name}")
@@ -96,6 +98,8 @@ def h_sec_coder(e, st, o, name, args, kwargs):
         s1, v = det_bytes(e, st, name, args[0], 0, 4000)
         if name == "encode_ToBeSignedCertificate" and not e.spec_mode:
             s1 = s1.ghost_append("tbs_cert_encoded", TupleV([args[0], v]))
+        if name == "encode_etsi_ts_103097_certificate" and not e.spec_mode:
+            s1 = s1.ghost_append("cert_encoded", TupleV([args[0], v]))
         yield s1, v
         yield st, RaiseV(e.exc("Exception", "encode error"))
     else:
@@ -255,6 +259,62 @@ def h_cert_class(e, st, o, name, args, kwargs):
         yield s1, c
     else:
         raise Unsupported(f"Certificate.{name}")
+
+
+def setup_ecdsa(e):
+    """python-ecdsa seen from the back end: curves and hash functions are names, sigencode_string keeps (r, s, order),
+    Point / from_public_point keep (curve, x, y); VerifyingKey.verify returns True, raises BadSignatureError or (never in
+    the library) returns False - an arbitrary verdict recorded with its arguments"""
+    setup(e)
+    e.used_assumptions.add("python-ecdsa: VerifyingKey.verify(sig, data, hashfunc) is an arbitrary verdict (True or BadSignatureError) "
+                           "recorded with r, s, the point and the curve it was called with; no elliptic-curve arithmetic is modelled")
+
+    def ext(name):
+        return Opaque("ecdsa_name", None, {"name": name})
+    for n in ("ecdsa.NIST256p", "ecdsa.BRAINPOOLP256r1", "hashlib.sha256", "ecdsa.NIST384p"):
+        e.external_values[n] = ext(n.split(".")[-1])
+    e.external_values["hashlib.sha256"] = ext("sha256")
+
+    def h_name(e2, st, o, name, args, kwargs):
+        raise Unsupported(f"ecdsa {o.data['name']}.{name}()")
+    e.opaque_handlers["ecdsa_name"] = h_name
+    orig = e.opaque_attr
+
+    def attr(st, o, name):
+        if o.typ == "ecdsa_name" and name in ("order", "curve"):
+            return Opaque("ecdsa_name", None, {"name": o.data["name"] + "." + name})
+        return orig(st, o, name)
+    e.opaque_attr = attr
+
+    def x_sigencode(e2, st, args, kwargs):
+        yield st, Opaque("ec_sig", None, {"r": args[0], "s": args[1], "order": args[2]})
+
+    def x_point(e2, st, args, kwargs):
+        yield st, Opaque("ec_point", None, {"curve": args[0], "x": args[1], "y": args[2], "order": args[3] if len(args) > 3 else None})
+
+    def x_from_public_point(e2, st, args, kwargs):
+        yield st, Opaque("ec_vk", None, {"point": args[0], "curve": kwargs.get("curve")})
+
+    def h_vk(e2, st, o, name, args, kwargs):
+        if name != "verify":
+            raise Unsupported(f"VerifyingKey.{name}")
+        sig = kwargs.get("signature", args[0] if args else None)
+        data = kwargs.get("data", args[1] if len(args) > 1 else None)
+        hf = kwargs.get("hashfunc")
+        ok = z3.Bool(e2.fresh("ec_ok"))
+        pt = o.data["point"]
+        curve = o.data["curve"]
+        row = TupleV([data, sig.data["r"], sig.data["s"], pt.data["x"], pt.data["y"], ok,
+                      StrV(curve.data["name"] if isinstance(curve, Opaque) and curve.data else "?"),
+                      StrV(hf.data["name"] if isinstance(hf, Opaque) and hf.data else "?")])
+        s1 = st.ghost_append("ec_verify", row)
+        if e2.feasible(s1.pc, ok):
+            yield s1.assume(ok), z3.BoolVal(True)
+        if e2.feasible(s1.pc, z3.Not(ok)):
+            yield s1.assume(z3.Not(ok)), RaiseV(e2.exc("ecdsa.keys.BadSignatureError", "bad signature"))
+    e.opaque_handlers["ec_vk"] = h_vk
+    e.external_handlers.update({"ecdsa.util.sigencode_string": x_sigencode, "ecdsa.ellipticcurve.Point": x_point,
+                                "ecdsa.VerifyingKey.from_public_point": x_from_public_point})
 
 
 def setup_library(e):
